@@ -244,6 +244,8 @@ pub struct Space {
     pub ends: Vec<End>,
     pub log: bool,
     pub create2: bool,
+    /// false: no SSTORE / SLOAD in the alphabet (transient storage and calls only)
+    pub persistent: bool,
     /// 1: every message comes from the same account; 2: messages 2.. come from either of two
     /// accounts (all assignments)
     pub senders: usize,
@@ -268,6 +270,7 @@ impl Space {
             ends: vec![End::Revert, End::SelfDestruct],
             log: false,
             create2: false,
+            persistent: true,
             senders: 1,
             batch: 16,
             code_budget: 16 << 10,
@@ -293,6 +296,7 @@ impl Space {
                 "values" => sp.values = nums(),
                 "log" => sp.log = v == "1",
                 "create2" => sp.create2 = v == "1",
+                "persistent" => sp.persistent = v == "1",
                 "senders" => sp.senders = v.parse().unwrap(),
                 "kinds" => {
                     sp.kinds = v
@@ -345,6 +349,7 @@ impl Space {
                 Space { max_depth: 4, max_ops: 4, max_contracts: 3, max_msgs: 1, max_size: 5, keys: vec![0], ..b("deep") },
                 // the design alphabet (+ value 0, + INVALID) one op deeper than quick
                 Space { max_depth: 4, max_ops: 4, max_contracts: 4, max_msgs: 3, max_size: 4, values: vec![0, 1, 2], ends: vec![Revert, Invalid, SelfDestruct], ..b("full-alphabet") },
+                Space { max_depth: 3, max_ops: 5, max_contracts: 2, max_msgs: 2, max_size: 6, keys: vec![0], values: vec![0, 1], kinds: vec![Call, Static, Delegate], ends: vec![Revert], persistent: false, ..b("transient-lock") },
             ]
         } else {
             vec![
@@ -354,19 +359,24 @@ impl Space {
                 Space { max_depth: 3, max_contracts: 2, max_msgs: 1, max_size: 4, keys: vec![0], kinds: vec![Call, Static, Delegate], ..b("deep") },
                 // up to three messages from two senders with equal nonces
                 Space { max_contracts: 2, max_msgs: 3, keys: vec![0], values: vec![1], kinds: vec![Call, Delegate], senders: 2, ..b("two-senders") },
+                // transient storage only (set / clear / read around re-entrant calls: the
+                // transient re-entrancy lock), two ops more
+                Space { max_ops: 4, max_contracts: 2, max_msgs: 1, max_size: 5, keys: vec![0], values: vec![0, 1], kinds: vec![Call, Delegate], ends: vec![Revert], persistent: false, ..b("transient-lock") },
             ]
         }
     }
 
     fn simple_ops(&self) -> Vec<Op> {
         let mut v = vec![];
-        for &k in &self.keys {
-            for &x in &self.values {
-                v.push(Op::SStore(k, x));
+        if self.persistent {
+            for &k in &self.keys {
+                for &x in &self.values {
+                    v.push(Op::SStore(k, x));
+                }
             }
-        }
-        for &k in &self.keys {
-            v.push(Op::SLoad(k));
+            for &k in &self.keys {
+                v.push(Op::SLoad(k));
+            }
         }
         for &k in &self.keys {
             for &x in &self.values {
